@@ -485,8 +485,9 @@ class SgzReader(object):
         zslice_first_block_offset = zslice_id // self.blockshape[2]
 
         if self.blockshape[0] == 4 and self.blockshape[1] == 4:
+            # The loader decodes (and caches) the four z-slices of one compression unit together
             decompressed = self.loader.read_and_decompress_zslice_set(blocks_per_dim, zslice_first_block_offset,
-                                                                      zslice_id)
+                                                                      4 * (zslice_id // 4))
             return decompressed[0:self.n_ilines, 0:self.n_xlines, zslice_id % 4]
 
         elif self.blockshape[2] == 4:
